@@ -13,7 +13,7 @@ import (
 func init() {
 	register(&propDef{
 		id: "C07", level: "other", run: runC07,
-		explanation: "Decided: shape-level encodability of everything the decoder can produce, as a triaged census. (R1) every origin of a non-nil error in the functions reachable from Encode is enumerated from SSA and classified by the condition that guards it: a write into the encoder's own bytes.Buffer (cannot fail), a hash write (cannot fail), the caller's io.Writer (propagated; allowed), an accessor/file-type mismatch (impossible for a File whose init succeeded, C03-4/5), or a table condition (not a string / array of strings / unknown kind) that is false for every field of every message type a container or the File hosts; the UTF-8 check of encodeString cannot be discharged because the decoder's string arms establish no UTF-8 invariant (known finding). (R2) every potential panic site of the same functions (explicit panic, non-comma-ok type assertion, dynamic slice bound, nil field pointer, reflect accessors) is enumerated and discharged by a named C15 obligation or reported. (R3) invalid omission: getEncodeMesgDef compares each field with the field of the same index of the all-invalid message of the same number. (R4) expansion is order-safe for a second decode: every expansion depends only on its own source's validity and a destination that is itself a source is filled before its components are taken. (R5) every visited message is written: encodeDefAndDataMesg succeeds only behind writeMesg or for a nil pointer, encodeFile's list loop writes on every path round the loop and is left only by its header test or an error, and the definition lists the profile's own rows. NOT decided: that the re-decoded content is equal, the fixpoint of a second round trip, nil elements placed in containers through the public API. The record-layout rules (C05-R3-def-layout/-header-bytes) and C05-R3-no-silent-skip run here as well: what Encode writes is what Decode reads back. (R2-nil) no nil dereference on Encode's scope (origin-based analysis with local-cell, captured-variable and pointer-collection disciplines); methods of message types reachable from Encode (incl. through reflection-fed interface calls) do not write their receiver; C03-6-message-flows runs here too. (R4, third condition) an accumulated destination must not depend on state that outlives the decode: a package-level accumulator with a non-zero mask makes the decode of Encode's output continue the first decode's running sum (known finding: accumuDistance).",
+		explanation: "Decided: shape-level encodability of everything the decoder can produce, as a triaged census. (R1) every origin of a non-nil error in the functions reachable from Encode is enumerated from SSA and classified by the condition that guards it: a write into the encoder's own bytes.Buffer (cannot fail), a hash write (cannot fail), the caller's io.Writer (propagated; allowed), an accessor/file-type mismatch (impossible for a File whose init succeeded, C03-4/5), or a table condition (not a string / array of strings / unknown kind) that is false for every field of every message type a container or the File hosts; the UTF-8 check of encodeString cannot be discharged because the decoder's string arms establish no UTF-8 invariant (known finding). (R2) every potential panic site of the same functions (explicit panic, non-comma-ok type assertion, dynamic slice bound, nil field pointer, reflect accessors) is enumerated and discharged by a named C15 obligation or reported. (R3) invalid omission: getEncodeMesgDef compares each field with the field of the same index of the all-invalid message of the same number. (R4) expansion is order-safe for a second decode: every expansion depends only on its own source's validity and a destination that is itself a source is filled before its components are taken. (R5) every visited message is written: encodeDefAndDataMesg succeeds only behind writeMesg or for a nil pointer, encodeFile's list loop writes on every path round the loop and is left only by its header test or an error, and the definition lists the profile's own rows. NOT decided: that the re-decoded content is equal, the fixpoint of a second round trip, nil elements placed in containers through the public API. The record-layout rules (C05-R3-def-layout/-header-bytes) and C05-R3-no-silent-skip run here as well: what Encode writes is what Decode reads back. (R2-nil) no nil dereference on Encode's scope (origin-based analysis with local-cell, captured-variable and pointer-collection disciplines); methods of message types reachable from Encode (incl. through reflection-fed interface calls) do not write their receiver; C03-6-message-flows runs here too. (R4, third condition) an accumulated destination must not depend on state that outlives the decode: a package-level accumulator with a non-zero mask makes the decode of Encode's output continue the first decode's running sum (known finding: accumuDistance). (R3, exact) whether getEncodeMesgDef keeps a field is control dependent only on conditions computed from the field's own value, the all-invalid message and the base type's invalid value.",
 		trusted:     []string{"bytes.Buffer writes and hash.Hash writes never return an error", "C15 (tables agree with struct types) and C03 (file-type pairing)", "documented reflect panic conditions"},
 	})
 }
@@ -244,8 +244,91 @@ func runC07(c *Ctx, r *Report) {
 				}
 			}
 		}
+		// exactness: whether a field is kept depends on nothing but the field's own value, the all-invalid
+		// message and the base type's invalid value (plus the loop and the panics): a test on the field's
+		// number, on another field or on a table leaves set fields out of the stream
+		nApp := 0
+		for _, b := range fn.Blocks {
+			for _, ins := range b.Instrs {
+				st, isSt := ins.(*ssa.Store)
+				if !isSt {
+					continue
+				}
+				fa, isFA := st.Addr.(*ssa.FieldAddr)
+				call, isCall := st.Val.(*ssa.Call)
+				if !isFA || !isCall || !isFieldOf(fa, "encodeMesgDef", "fields") || inLoopWithin(b, fn) == 0 {
+					continue
+				}
+				if bi, isB := call.Common().Value.(*ssa.Builtin); !isB || bi.Name() != "append" {
+					continue
+				}
+				nApp++
+				extra := extraControllersBy(c, fn, b, true, func(v ssa.Value) bool { return omissionCondOK(v, fn, map[ssa.Value]bool{}, 0) })
+				r.check(extra == "", "C07-R3-invalid-omission", "getEncodeMesgDef/exact", c.pos(st.Pos()), "whether a field is kept is decided by its own value against the invalid value only", "whether a field goes into the definition also depends on "+extra+", which is not a test of the field's own value against its invalid value: a set field can be left out of the stream and decodes as unset")
+			}
+		}
+		r.need("append of a kept field in getEncodeMesgDef", nApp, 1)
 		r.check(okNum && okAll && okCmp, "C07-R3-invalid-omission", "getEncodeMesgDef", c.pos(fn.Pos()), "a field is omitted iff it equals the same-index field of the all-invalid message of the same number", fmt.Sprintf("invalid omission: message number from the message's own type=%v, all-invalid of that number=%v, same-index comparison=%v", okNum, okAll, okCmp))
 	}
+}
+
+// omissionCondOK: v is computed from the value of the field at hand (mesg.Field(i) and what reflect
+// reads out of it), the same-index field of the all-invalid message, the invalid value of the base
+// type, constants and loop counters only.
+func omissionCondOK(v ssa.Value, fn *ssa.Function, seen map[ssa.Value]bool, depth int) bool {
+	if depth > 12 {
+		return false
+	}
+	if seen[v] {
+		return true
+	}
+	seen[v] = true
+	switch x := v.(type) {
+	case *ssa.Const:
+		return true
+	case *ssa.Phi:
+		for _, e := range x.Edges {
+			if !omissionCondOK(e, fn, seen, depth+1) {
+				return false
+			}
+		}
+		return true
+	case *ssa.BinOp:
+		return omissionCondOK(x.X, fn, seen, depth+1) && omissionCondOK(x.Y, fn, seen, depth+1)
+	case *ssa.UnOp:
+		if x.Op == token.NOT || x.Op == token.SUB {
+			return omissionCondOK(x.X, fn, seen, depth+1)
+		}
+		return false
+	case *ssa.MakeInterface:
+		return omissionCondOK(x.X, fn, seen, depth+1)
+	case *ssa.Convert:
+		return omissionCondOK(x.X, fn, seen, depth+1)
+	case *ssa.ChangeType:
+		return omissionCondOK(x.X, fn, seen, depth+1)
+	case *ssa.Parameter:
+		// the message itself (its fields are reached through Field(i))
+		return x.Type().String() == "reflect.Value"
+	case *ssa.Call:
+		f := x.Common().StaticCallee()
+		if f == nil {
+			return false
+		}
+		switch f.String() {
+		case "(reflect.Value).Field", "(reflect.Value).Index":
+			return omissionCondOK(x.Common().Args[0], fn, seen, depth+1) && omissionCondOK(x.Common().Args[1], fn, seen, depth+1)
+		case "(reflect.Value).Kind", "(reflect.Value).IsNil", "(reflect.Value).Len", "(reflect.Value).Interface", "(reflect.Value).IsValid", "(reflect.Value).IsZero", "(reflect.Value).NumField",
+			"(reflect.Value).Uint", "(reflect.Value).Int", "(reflect.Value).Float", "(reflect.Value).String", "(reflect.Value).Bytes":
+			return omissionCondOK(x.Common().Args[0], fn, seen, depth+1)
+		case "(" + typesPath + ".Base).Invalid":
+			return true // the invalid value of the field's base type, whichever way the base type was obtained
+		}
+		if f.Name() == "getMesgAllInvalid" && fnPkgPath(f) == modPath {
+			return true
+		}
+		return false
+	}
+	return false
 }
 
 // fieldIndexArg: for value ...Field(i).Interface() return the SSA value i.
